@@ -1,6 +1,7 @@
 import CkbVerif.Lemmas.MoleculeAccess
 import CkbVerif.Lemmas.Compact
 import CkbVerif.Lemmas.Frame
+import CkbVerif.Lemmas.Exchange
 import CkbVerif.Model.Frame
 import CkbVerif.Gen.Schemas
 /-!
@@ -642,5 +643,298 @@ example : (feedAll ⟨2097152, true⟩ Conn.init [[0, 0x20, 0, 0]]).state matche
 example : Frame.encode (fun d => d) ⟨2097152, true⟩ [9, 9] = some [0, 0, 0, 3, 0, 9, 9] := by decide +kernel
 
 end Frames
+
+/-! ### (d) the BlockTransactions exchange: "verifier ok ⇒ the consumer's indexing is total"
+
+`BlockTransactionsProcess::execute` runs `BlockTransactionsVerifier::verify` and
+`BlockUnclesVerifier::verify` on the pending compact block and the indexes that were requested,
+then `reconstruct_block`, which indexes `received_uncles` by position without looking again. -/
+section Exchange
+open CkbVerif.Compact
+
+variable (h : Hashes) (cb : CB) (received : List Tx) (pool : Nat → Option Tx) (src : Nat → UncleSrc) (fromPeer : List Nat)
+
+/-- `block_short_ids.get(index)` is never `None` when every requested index is below `txs_len` of
+the compact block the verifier is run on: neither the `.expect("should never outbound")` of the
+code before /repo 804c7e9 (`oobPanics = true`) nor the status that replaced it is reached -/
+theorem btx_verify_total_of_indexes_in_range (oobPanics : Bool) (idx : List Nat) (txs : List Tx)
+    (hi : ∀ i ∈ idx, i < txsLen cb) :
+    btxVerifyWith oobPanics cb idx txs ≠ .panic ∧
+    btxVerifyWith oobPanics cb idx txs = btxVerifyWith false cb idx txs := by
+  have hs := missingShortIds_isSome (blockShortIds cb) idx (by simpa [blockShortIds_length] using hi)
+  unfold btxVerifyWith
+  cases hm : missingShortIds (blockShortIds cb) idx with
+  | none => simp [hm] at hs
+  | some l =>
+    simp only
+    refine ⟨?_, trivial⟩
+    split
+    · simp
+    · split <;> simp
+
+/-- … and before /repo 804c7e9 it did panic as soon as one requested index was at or past
+`txs_len` (the indexes were the only thing protecting that `expect`) -/
+theorem btx_verify_prefix_panics_of_index_out_of_range (idx : List Nat) (txs : List Tx) (i : Nat) (hi : i ∈ idx)
+    (ho : txsLen cb ≤ i) : btxVerifyPreFix cb idx txs = .panic := by
+  unfold btxVerifyPreFix btxVerifyWith
+  rw [missingShortIds_none_of_oob (blockShortIds cb) idx i hi (by simpa [blockShortIds_length] using ho)]
+  rfl
+
+/-- since /repo 804c7e9 the verifier answers a status for every list of indexes -/
+theorem btx_verify_never_panics_since_fix (idx : List Nat) (txs : List Tx) :
+    btxVerifyWith false cb idx txs ≠ .panic := by
+  unfold btxVerifyWith
+  split
+  · simp
+  · split
+    · simp
+    · split <;> simp
+
+/-- the indexes `reconstruct_block` reports as missing lie below `txs_len` of the compact block it
+was run on -/
+theorem reconstruct_missing_indexes_in_range (ixs us : List Nat)
+    (hr : reconstruct h cb received pool src fromPeer = .missing ixs us) : ∀ i ∈ ixs, i < txsLen cb := by
+  intro i hi
+  obtain ⟨sid, hl, _⟩ := (reconstruct_missing_precise h cb received pool src fromPeer ixs us hr i).mp hi
+  have hlen := layout_length cb
+  have : i < (layout cb).length := by
+    rcases List.getElem?_eq_some_iff.mp hl with ⟨hlt, _⟩
+    exact hlt
+  omega
+
+/-- `short_id_indexes()` (requested after a collision) lie below `txs_len` -/
+theorem short_id_indexes_in_range : ∀ i ∈ shortIdIndexes cb, i < txsLen cb := by
+  intro i hi
+  unfold shortIdIndexes at hi
+  have := (List.mem_filter.mp hi).1
+  simpa using this
+
+/-- hence: on the SAME compact block that produced the request, even the verifier before /repo
+804c7e9 never reached its `expect`, whatever the peer answered — the defect needed a second
+compact block for the same header -/
+theorem btx_verify_total_on_own_request (ixs us : List Nat) (txs : List Tx)
+    (hr : reconstruct h cb received pool src fromPeer = .missing ixs us) : btxVerifyPreFix cb ixs txs ≠ .panic :=
+  (btx_verify_total_of_indexes_in_range cb true ixs txs (reconstruct_missing_indexes_in_range h cb received pool src fromPeer ixs us hr)).1
+
+example : btxVerifyPreFix (CB.mk default [5, 6] [(0, ⟨1, 1⟩)] [] [] none) [1, 2] [⟨5, 5⟩, ⟨6, 6⟩] = .ok ∧
+    btxVerifyPreFix (CB.mk default [5, 6] [(0, ⟨1, 1⟩)] [] [] none) [1, 2] [⟨5, 5⟩] = .lengthUnmatched ∧
+    btxVerifyPreFix (CB.mk default [5, 6] [(0, ⟨1, 1⟩)] [] [] none) [1, 2] [⟨6, 6⟩, ⟨5, 5⟩] = .shortIdsUnmatched ∧
+    btxVerifyWith false (CB.mk default [5, 6] [(0, ⟨1, 1⟩)] [] [] none) [1, 3] [⟨5, 5⟩] = .lengthUnmatched := by decide
+
+/-- WITNESS (the code before /repo 804c7e9, found by stream `recv`): the pending table keeps the FIRST
+compact block announced for a header hash but records a later peer's missing indexes, computed on
+that peer's own compact block of the same header.  Two compact blocks with the same header, both
+accepted by `CompactBlockVerifier`; the indexes `reconstruct_block` reports for the second one make
+`BlockTransactionsVerifier::verify` on the first one reach its `expect` -/
+theorem pending_variant_indexes_out_of_bounds :
+    ∃ cbA cbB : CB, cbA.header = cbB.header ∧ cbVerify cbA = none ∧ cbVerify cbB = none ∧
+      ∃ ixs us, reconstruct h cbB [] (fun _ => none) (fun _ => .missing) [] = .missing ixs us ∧
+        ∀ txs, btxVerifyPreFix cbA ixs txs = .panic := by
+  refine ⟨CB.mk default [9] [(0, ⟨1, 1⟩)] [] [] none, CB.mk default [5, 6] [(0, ⟨1, 1⟩)] [] [] none, rfl, by decide, by decide,
+    [1, 2], [], ?_, ?_⟩
+  · rfl
+  · intro txs
+    exact btx_verify_prefix_panics_of_index_out_of_range _ [1, 2] txs 2 (by simp) (by decide)
+
+/-- `BlockUnclesVerifier::verify` with the `return` (since /repo c09cedb): once it says ok, the uncle loop
+of `reconstruct_block` finds a received uncle at every position it asks for
+(`received_uncles.get(position).expect("have checked the indexes")` is total), for every list of
+requested indexes — sorted or not, in range or not, repeated or not -/
+theorem uncles_take_total_of_fixed_verify (uncles idx recv : List Nat)
+    (hv : unclesVerifyFixed uncles idx recv = true) : (unclesTake idx recv uncles 0 0).isSome = true := by
+  rw [unclesTake_isSome_iff]
+  left
+  unfold unclesVerifyFixed at hv
+  simp only [Bool.and_eq_true, beq_iff_eq] at hv
+  have hl := hv.1
+  rw [expectedUncles_length] at hl
+  have := peerCount_le idx uncles.length uncles.length (Nat.le_refl _)
+  simp only [Nat.sub_self] at this
+  have hz : idx.countP (fun j => decide (j < 0)) = 0 := by simp
+  omega
+
+/-- WITNESS (the code before /repo c09cedb, found by stream `recv`): without the `return`, the
+verifier accepts an answer with fewer uncles than requested and `reconstruct_block` indexes
+`received_uncles` out of range (its `expect` fails): one unknown uncle requested, none sent -/
+theorem uncles_verifier_prefix_admits_panic :
+    ∃ uncles idx recv : List Nat, unclesVerifyPreFix uncles idx recv = true ∧
+      unclesTake idx recv uncles 0 0 = none ∧ unclesVerifyFixed uncles idx recv = false :=
+  ⟨[500], [0], [], by decide⟩
+
+/-- the two verifiers differ only in the length check: on answers of the requested length they agree -/
+theorem uncles_verifiers_agree_on_equal_length (uncles idx recv : List Nat)
+    (hl : (expectedUncles uncles idx).length = recv.length) :
+    unclesVerifyPreFix uncles idx recv = unclesVerifyFixed uncles idx recv := by
+  simp [unclesVerifyPreFix, unclesVerifyFixed, hl]
+
+example : unclesVerifyFixed [500, 501] [0, 1] [500, 501] = true ∧
+    unclesTake [0, 1] [500, 501] [500, 501] 0 0 = some [(0, 500), (1, 501)] ∧
+    unclesVerifyFixed [500, 501] [0, 1] [500] = false ∧ unclesVerifyPreFix [500, 501] [0, 1] [500] = true := by decide
+
+end Exchange
+
+/-! ### (e) the frame codec: an accepted compressed frame has a declared length within the bound -/
+section CodecBound
+open CkbVerif.Frame CkbVerif.Gen.Codec
+
+/-- `LengthDelimitedCodecWithCompress::decode` hands a compressed frame to the snappy decoder only
+with the length the snappy header declares, and only if that length is at most
+`MAX_UNCOMPRESSED_LEN` (the buffer `BytesMut::zeroed(len)` is allocated after this test) -/
+theorem accepted_frame_declared_length_bounded (d : Frame.Bytes) (n : Nat) (body : Frame.Bytes)
+    (ha : frameItem d = some (.snappy n body)) :
+    n ≤ MAX_UNCOMPRESSED_LEN ∧ decompressLen body = some n := by
+  unfold frameItem at ha
+  split at ha
+  · simp at ha
+  · cases d with
+    | nil => simp at ha
+    | cons b rest =>
+      simp only at ha
+      split at ha
+      · cases hl : decompressLen rest with
+        | none => simp [hl] at ha
+        | some m =>
+          simp only [hl] at ha
+          split at ha
+          · simp at ha
+          · simp only [Option.some.injEq, Item.snappy.injEq] at ha
+            obtain ⟨rfl, rfl⟩ := ha
+            exact ⟨by omega, hl⟩
+      · simp at ha
+
+/-- the decision with the bound tested on the WIRE length of the frame instead of the declared
+length (NOT the code: the seeded variant) -/
+def frameItemWireBound (data : Frame.Bytes) : Option Item :=
+  if data.length < DECODE_MIN_FRAME_LEN then none else
+  match data with
+  | [] => none
+  | b :: rest =>
+    if compressFlag b then
+      match decompressLen rest with
+      | some n => if data.length > MAX_UNCOMPRESSED_LEN then none else some (.snappy n rest)
+      | none => none
+    else some (.raw rest)
+
+/-- WITNESS: with the bound on the wire length a 7-byte frame announcing 4 GiB - 1 is accepted (and a
+buffer of that size allocated) -/
+theorem wire_length_bound_admits_oversize :
+    ∃ d : Frame.Bytes, d.length = 7 ∧ ∃ n body, frameItemWireBound d = some (.snappy n body) ∧
+      MAX_UNCOMPRESSED_LEN < n ∧ frameItem d = none :=
+  ⟨[0x80, 0xff, 0xff, 0xff, 0xff, 0x0f, 0x00], rfl, 4294967295, [0xff, 0xff, 0xff, 0xff, 0x0f, 0x00], by decide +kernel⟩
+
+example : frameItem [0x80, 0x03, 0x08, 0x61, 0x62, 0x63] = some (.snappy 3 [0x03, 0x08, 0x61, 0x62, 0x63]) := by decide +kernel
+
+end CodecBound
+
+/-! ### (f) discovery: the compatible-mode extra field is read only after a second verification -/
+section Discovery
+open CkbVerif.Proto CkbVerif.Gen.Schemas
+
+/-- `DiscoveryMessage::decode`: whenever the 4th field of a `GetNodes` table is read as
+`required_flags`, it is exactly 8 bytes long (`Uint64 -> u64` copies it into a `[u8; 8]`): the
+outer compatible-mode verification does not look at extra fields, `GetNodes2::from_compatible_slice`
+does -/
+theorem disc_flags_read_eight_bytes (bs f : Bytes) (hr : discFlagsRead true bs = some f) : f.length = 8 := by
+  unfold discFlagsRead at hr
+  split at hr
+  · simp at hr
+  · dsimp only at hr
+    generalize (fld bs 0).drop 4 = inner at hr
+    split at hr
+    · split at hr
+      · simp at hr
+      · rename_i hv
+        simp only [Bool.true_and, Bool.not_eq_true', Bool.not_eq_false] at hv
+        simp only [Option.some.injEq] at hr
+        subst hr
+        -- verify true GetNodes2 inner: the 4th slice is a verified Uint64
+        have hv' : verify true (.table [S.Uint32, S.Uint32, S.PortOpt, S.Uint64]) inner = true := by
+          simpa [S.GetNodes2] using hv
+        unfold verify at hv'
+        simp only at hv'
+        cases hd : dynHeader inner with
+        | none => simp [hd] at hv'
+        | some offs =>
+          simp only [hd, Bool.and_eq_true] at hv'
+          obtain ⟨b, hb, hvb⟩ := verifyL_get true _ _ 3 hv'.2 (by simp)
+          have : fld inner 3 = b := by
+            simp [fld, tableFieldBytes, hd, hb]
+          rw [this]
+          have hvb' : verify true (.array .byte 8) b = true := by simpa [S.Uint64] using hvb
+          simpa [verify, size] using hvb'
+    · simp at hr
+
+/-- WITNESS (the seeded variant, `GetNodes2Reader::new_unchecked`): a message the outer
+verification accepts whose 4th field is 3 bytes long — the code refuses it, the unchecked read
+hands 3 bytes to the 8-byte copy -/
+theorem disc_unchecked_flags_read_not_eight_bytes :
+    ∃ bs f : Bytes, discFlagsRead false bs = some f ∧ f.length = 3 ∧ discFlagsRead true bs = none ∧
+      discDecode bs = .none :=
+  ⟨[43, 0, 0, 0, 8, 0, 0, 0, 0, 0, 0, 0, 31, 0, 0, 0, 20, 0, 0, 0, 24, 0, 0, 0, 28, 0, 0, 0, 28, 0, 0, 0,
+    0, 0, 0, 0, 3, 0, 0, 0, 255, 255, 255], [255, 255, 255], by decide +kernel⟩
+
+example : discDecode [48, 0, 0, 0, 8, 0, 0, 0, 0, 0, 0, 0, 36, 0, 0, 0, 20, 0, 0, 0, 24, 0, 0, 0, 28, 0, 0, 0, 28, 0, 0, 0,
+    0, 0, 0, 0, 3, 0, 0, 0, 3, 0, 0, 0, 0, 0, 0, 0] = .getNodes 0 3 none 3 := by decide +kernel
+
+end Discovery
+
+/-! ### (g) light-client requests: arithmetic on peer-supplied numbers stays in range
+
+`u64` / `usize` arithmetic with overflow checks (the release profile): `none` = the operation
+panics.  Each pair is the code before the repair (witness: a peer-supplied value that panics) and
+since (total for every value a peer can send). -/
+section LightArithmetic
+open CkbVerif.Proto CkbVerif.Gen.Codec
+
+/-- the "too many samples" test of `GetLastStateProofProcess::execute` (since /repo d5fb657) never
+overflows, for every `last_n_blocks` a `Uint64` can carry and every number of difficulties a
+message can carry (anything up to `u64::MAX - 2 * LIMIT`), and it says exactly what it is meant to -/
+theorem too_many_samples_total (nd lastN : Nat) (hn : nd + 2 * GET_LAST_STATE_PROOF_LIMIT ≤ U64_MAX) :
+    tooManySamples nd lastN = some (decide (lastN > GET_LAST_STATE_PROOF_LIMIT ∨ nd + lastN * 2 > GET_LAST_STATE_PROOF_LIMIT)) := by
+  unfold tooManySamples
+  by_cases hl : lastN > GET_LAST_STATE_PROOF_LIMIT
+  · simp [hl]
+  · have h1 : lastN * 2 ≤ U64_MAX := by
+      have : GET_LAST_STATE_PROOF_LIMIT ≤ U64_MAX := by decide
+      omega
+    have h2 : nd + lastN * 2 ≤ U64_MAX := by omega
+    simp [hl, tooManySamplesPreFix, ckMul, ckAdd, h1, h2]
+
+/-- WITNESS (before /repo d5fb657): `last_n_blocks = 2^63` overflows the multiplication,
+`2^63 - 1` with two difficulties the addition — in the check meant to refuse oversized requests -/
+theorem too_many_samples_prefix_overflows :
+    tooManySamplesPreFix 0 9223372036854775808 = none ∧ tooManySamplesPreFix 2 9223372036854775807 = none ∧
+    tooManySamples 0 9223372036854775808 = some true ∧ tooManySamples 2 9223372036854775807 = some true := by
+  decide
+
+example : tooManySamples 0 500 = some false ∧ tooManySamples 1 500 = some true ∧ tooManySamplesPreFix 1000 0 = some false := by decide
+
+/-- `last_block_number - start_block_number` (since /repo 54aa098) is computed only when it cannot
+underflow; a start number above the last block is refused -/
+theorem span_total (last start : Nat) :
+    span last start = some (if start > last then none else some (last - start)) := by
+  unfold span ckSub
+  by_cases hs : start > last
+  · simp [hs]
+  · have : start ≤ last := by omega
+    simp [hs, this]
+
+/-- WITNESS (before /repo 54aa098): `start_number = last + 1` underflows -/
+theorem span_prefix_underflows : spanPreFix 12 13 = none ∧ span 12 13 = some none := by decide
+
+/-- `chain_root_mmr(last_block.number() - 1)` in `reply_proof` (since /repo edc6fe7) is computed only
+for a non-genesis last block -/
+theorem parent_root_leaf_total (n : Nat) :
+    parentRootLeaf n = some (if n = 0 then none else some (n - 1)) := by
+  unfold parentRootLeaf ckSub
+  by_cases hz : n = 0
+  · simp [hz]
+  · have : 1 ≤ n := by omega
+    simp [hz, this]
+
+/-- WITNESS (before /repo edc6fe7): the genesis block as last block underflows -/
+theorem parent_root_leaf_prefix_underflows : parentRootLeafPreFix 0 = none ∧ parentRootLeaf 0 = some none := by decide
+
+end LightArithmetic
 
 end CkbVerif.C16
